@@ -26,7 +26,7 @@ PROPS = {
     },
     "C12": {
         "claim": 'Direct predicate on the implementation for generated well-typed programs: print with the type-level printer (pretty::candid::compile) and with the syntax-tree printer (syntax::pretty_print), parse and type-check the text, and require the same definition names, every definition and the main service structurally equal to the originals (types::subtype::equal on the merged environments), service_equal on the two texts, and deterministic output. Coq theorems (closed) for what the predicate can only sample: EVERY name the printers emit -- quoted (any Unicode scalars, keywords) or bare -- lexes back to exactly that name, bare names are ASCII identifiers that are not keywords, and the structural-equality decision used for the comparison is correct (eq_dec).',
-        "note": "The printers' layout and the grammar above the token level are not modelled in Coq: the program-level round trip is a predicate on generated programs, not a theorem. Environments exported from Rust types (export_service!) are not covered here.",
+        "note": "The printers' layout and the grammar above the token level are not modelled in Coq: the program-level round trip is a predicate on generated programs, not a theorem. Environments exported from Rust types are covered by p.c12.export: for every type of the native corpus (incl. non-ASCII and raw-identifier type names) the TypeContainer environment (what export_service! prints) is printed, re-parsed, re-checked and compared definition by definition; this is a predicate over the corpus, not a theorem.",
         "props_file": "props/C12.v",
         "shards": (4, 16),
         "rule": 'cases: 150 (x15) generated programs as for C14 (odd definition names, keyword / quoted / non-ASCII field and method names, recursion, aliases of functions and services, service constructors, with and without main service). Non-trivial = non-empty environment or a main service.',
@@ -78,7 +78,7 @@ PROPS = {
         "trusted_base": ['modelled, not verified: binread (header parser driver), serde visitors of IDLValue, HashMap, RecursionDepth/stacker (not modelled), std::str::from_utf8 (modelled by utf8_valid)'],
     },
     "C03": {
-        "claim": "What the encoders emit (IDLArgs::to_bytes_with_types and to_bytes) is decoded on every run by the model's specification-level decoder (header grammar with all side conditions: composite-only table, strictly ascending field ids and method names, methods are functions, indices in range; then M^-1) and the decoded argument types (raw table, compared by the proved structural-equality decision eq_dec) and values must equal the inputs (after strict annotation); typed encoding must refuse near-miss values; encoding is repeated to check determinism. Coq theorems (closed): M^-1 inverts M (so 'decodes back' means 'is the spec encoding'), numbers are minimal (S)LEB128, accepted field lists are exactly the strictly ascending ones, eq_dec decides structural type equality.",
+        "claim": "What the encoders emit (IDLArgs::to_bytes_with_types and to_bytes) is decoded on every run by the model's specification-level decoder (header grammar with all side conditions: composite-only table, strictly ascending field ids and method names, methods are functions, indices in range; then M^-1) and the decoded argument types (raw table, compared by the proved structural-equality decision eq_dec) and values must equal the inputs (after strict annotation); typed encoding must refuse near-miss values; encoding is repeated to check determinism. Coq theorems (closed): M^-1 inverts M (so 'decodes back' means 'is the spec encoding'), numbers are minimal (S)LEB128, accepted field lists are exactly the strictly ascending ones, eq_dec decides structural type equality. The encoder's type-table builder itself is modelled as it is (TypeSer.v mirrors TypeSerialize::build_type / encode / serialize, plus the whole typed message) and compared BYTE FOR BYTE with to_bytes_with_types (m.c03.encode); theorems over all environments and argument lists: the builder's map and table stay consistent (dense indices, one key per slot, every slot filled with its key's entry, nothing left under construction), every key is a sub-term of the input, and the written header is read back by the spec's header grammar consuming exactly the header -- a table of composite entries only whose references are primitive codes or indices below the table length (C03_table_invariant, C03_table_within_input, C03_header_reads). The same values are also encoded with every record's fields in descending order (c03.wf.rev).",
         "note": "Not proved: the serializer's type-table builder (TypeSerialize) against the grammar for all inputs -- differential only. Native values (derive / impls.rs) are covered under C01/C08. Untyped to_bytes is only exercised on values whose vectors are uniform (the encoder infers a vector's type from its first element).",
         "props_file": "props/C03.v",
         "shards": (4, 16),
@@ -197,7 +197,7 @@ PROPS = {
                  "included), monotone in both quotas, the cost of a successful decode is independent of the quotas; every value returned or skipped is "
                  "charged >= 1 to the decoding counter and, when skipped, to the skipping counter (so zero-sized elements are not free); the budget is never "
                  "overdrawn, hence under quota q at most q values are returned.",
-        "note": "The upper bound against the cost model documented with set_decoding_quota (cost <= 4 x model) is NOT a theorem: it is the predicate "
+        "note": "The upper bound against the cost model documented with set_decoding_quota (cost <= 4 x model) is NOT a theorem: it is the predicate  p.c07.mixed: on one IDLDeserialize the marginal cost (both counters) of a natively read argument does not depend on whether the previous argument was read natively or as an untyped value."
                 "p.c07.upper on generated messages decoded at their own types (measured worst ratio 3.5). Native (non-IDLValue) visitors are not in the "
                 "model; for them the laws are only evaluated as predicates by the checks of C01/C08 where those are claimed. The stack guard is not modelled.",
         "props_file": "props/C07.v",
